@@ -381,5 +381,5 @@ func (pf *ParamsFamily) ReplayParams(cr *CheckRun, job *EmittedJob, fl *Failure,
 	if !strings.Contains(text, "ZZ-OK") {
 		obs = "harness did not complete: " + truncate(text, 300)
 	}
-	fl.Replay = &ReplayResult{Reproduced: false, Input: what, Observed: obs, Cmd: "go test (generated harness zz_params_test.go)"}
+	fl.Replay = &ReplayResult{Reproduced: false, Input: what, Observed: obs, Cmd: "go test (generated harness zz_params_test.go)", Bounded: strings.Contains(text, "ZZ-OK")}
 }
